@@ -1,5 +1,6 @@
 import ScriggoV.Drv.Util
 import ScriggoV.Model.LinkDest
+import ScriggoV.Model.LinkDestFence
 namespace ScriggoV.Drv.C29
 open ScriggoV ScriggoV.LinkDest
 
@@ -26,7 +27,10 @@ def bit (b : Bool) : String := if b then "1" else "0"
 
 /-- `apply <hex src> <n> (<start> <stop> <hex>)*`, `escape <hex>`, `unescape <hex>`,
 `tables` (isMarkdownEscapable | isPunct<<1 | isSpace<<2 for the 256 bytes),
-`destination <hex line> <pos>`, `title <hex line> <pos>`, `labelend <hex line> <pos>` -/
+`destination <hex line> <pos>`, `title <hex line> <pos>`, `labelend <hex line> <pos>`,
+`fencestart <hex line>` (`ok none` / `ok <char> <len>`), `fenceclose <hex line> <char> <len>`,
+`indented <hex line>` (`ok 0` / `ok 1`), `fencescan <hex source>` (one bit per line of the source
+split at LF: skipped as part of a fenced block) -/
 def handle : List String → Option String
   | "apply" :: h :: n :: rest => do
     let src ← fromHex h
@@ -60,6 +64,23 @@ def handle : List String → Option String
     let line ← fromHex h
     let pos ← p.toNat?
     pure (optNat (findLabelEnd line pos))
+  | ["fencestart", h] => do
+    let line ← fromHex h
+    pure (match isFenceStart line with
+          | some (c, n) => s!"ok {c.toNat} {n}"
+          | none => "ok none")
+  | ["fenceclose", h, c, n] => do
+    let line ← fromHex h
+    let ch ← c.toNat?
+    let len ← n.toNat?
+    if ch ≥ 256 then none else
+    pure ("ok " ++ bit (isFenceClose line ch.toUInt8 len))
+  | ["indented", h] => do
+    let line ← fromHex h
+    pure ("ok " ++ bit (isIndentedCode line))
+  | ["fencescan", h] => do
+    let src ← fromHex h
+    pure ("ok " ++ String.join ((fenceScan none (splitLines [] src)).map bit))
   | _ => none
 
 end ScriggoV.Drv.C29
